@@ -72,6 +72,11 @@ func c04failOutcome(kind string) fxOutcome {
 		return fxOutcome{Metrics: `{"name":"m","action":"bogus","value":1}` + "\n"}
 	case "bad-patch":
 		return fxOutcome{Patch: `{"operation":"NoSuchOperation","kind":"ConfigMap","name":"x"}` + "\n"}
+	case "bad-admission-response":
+		// a hook that serves admission requests as well may leave a response file behind on any run
+		return fxOutcome{Admission: `{"allowed": tr`}
+	case "bad-conversion-response":
+		return fxOutcome{Conversion: `{"convertedObj`}
 	case "unappliable-patch":
 		return fxOutcome{Patch: `{"operation":"JSONPatch","kind":"ConfigMap","namespace":"n1","name":"does-not-exist","jsonPatch":[{"op":"add","path":"/data/x","value":"1"}]}` + "\n"}
 	}
@@ -364,7 +369,7 @@ func TestVerifC04(t *testing.T) {
 	var cases []c04case
 	for _, target := range []string{"onStartup", "Synchronization", "Event", "Schedule", "Combined"} {
 		for k := 0; k <= 3; k++ {
-			for _, f := range []string{"exit", "bad-metrics", "bad-patch", "unappliable-patch"} {
+			for _, f := range []string{"exit", "bad-metrics", "bad-patch", "unappliable-patch", "bad-admission-response", "bad-conversion-response"} {
 				if k == 0 && f != "exit" {
 					continue
 				}
